@@ -37,7 +37,7 @@ REPO_SRC = os.environ.get("VERIF_REPO_SRC", "/repo/src")
 class Clock:
     """Virtual time source shared by everything in one execution."""
 
-    __slots__ = ("now", "wall_hook", "sleep_hook", "frac", "rand_calls", "utcnow")
+    __slots__ = ("now", "wall_hook", "sleep_hook", "frac", "rand_calls", "utcnow", "global_rng")
 
     def __init__(self):
         self.now = T0
@@ -46,6 +46,7 @@ class Clock:
         self.frac = 0.0         # fraction returned by the owned RNG
         self.rand_calls = 0
         self.utcnow = None      # owned datetime for redress.extras.http
+        self.global_rng = False  # draws come from the (re-seeded) process-global random stream
 
 
 CLOCK = Clock()
@@ -118,10 +119,14 @@ class OwnedRandom:
 
     def uniform(self, a, b):
         CLOCK.rand_calls += 1
+        if CLOCK.global_rng:
+            return _random.uniform(a, b)   # the stream every other user of `random` shares
         return a + (b - a) * CLOCK.frac
 
     def random(self):
         CLOCK.rand_calls += 1
+        if CLOCK.global_rng:
+            return _random.random()
         f = CLOCK.frac
         return f if f < 1.0 else 1.0 - 2.0 ** -53
 
